@@ -399,6 +399,12 @@ func subC14Dkg(arg string) string {
 			if fault == "buffered-then-retransmitted" && i == 0 {
 				time.Sleep(250 * time.Millisecond)
 			}
+			if fault == "member-listed-twice" {
+				// the event's participant list names member 0 twice (nothing in the client removes
+				// duplicates): whatever the session makes of it, it ends with the deadline
+				nodes[i].VerifHandleGrouping(append(append([][]byte{}, ids...), ids[0]), gid)
+				return
+			}
 			nodes[i].VerifHandleGrouping(ids, gid)
 		}(i)
 		if fault == "event-repeated" {
@@ -579,7 +585,7 @@ func genC14(rng *hx.Rng, tier string, w *hx.Writer) error {
 	}
 	// key generation
 	dDeadlines := []int{0, 3, 10, 25, 50, 90, 150, 250, 400, 700, 1500}
-	dFaults := []string{"none", "peer-silent", "invalid-deal", "register-failure", "slow-network", "many-invalid-deals", "buffered-then-retransmitted", "event-repeated"}
+	dFaults := []string{"none", "peer-silent", "invalid-deal", "register-failure", "slow-network", "many-invalid-deals", "buffered-then-retransmitted", "event-repeated", "member-listed-twice"}
 	for rep := 0; rep < reps; rep++ {
 		for _, f := range dFaults {
 			for _, dl := range dDeadlines {
